@@ -8,6 +8,7 @@ CONSTANTS
  DedupMode = "none"
  AtomicDedup = TRUE
  AllowRelay = TRUE
+ SigCache = "none"
  MCCfgs <- Cfg3
  Bodies = {x, y}
  MaxFSig = 99
